@@ -235,25 +235,29 @@ pub fn retain_script(w: &World, t: usize, cmd: Cmd) -> Cmd {
 }
 
 /// Can `cmd` be given to a task in state `ts` (lenient mode, after a divergence)?
+/// schedule points in front of a segment that takes the slots mutex
+pub const LOCK_SITES: [&str; 10] = [
+    "m.get.pop",
+    "m.create.size",
+    "m.create.unreserve",
+    "m.unready.drop",
+    "m.ret.lock",
+    "m.take.lock",
+    "m.resize.lock",
+    "m.close.lock",
+    "m.retain.status",
+    "m.retain.lock",
+];
+
 pub fn applicable(w: &World, t: usize, cmd: &Cmd) -> bool {
-    let lock_sites = [
-        "m.get.pop",
-        "m.create.size",
-        "m.create.unreserve",
-        "m.unready.drop",
-        "m.ret.lock",
-        "m.take.lock",
-        "m.resize.lock",
-        "m.close.lock",
-        "m.retain.status",
-        "m.retain.lock",
-    ];
+    let lock_sites = LOCK_SITES;
     match (&w.ts[t], cmd) {
         (TState::Idle, Cmd::StartGet(..) | Cmd::StartResize(_) | Cmd::StartClose | Cmd::StartRetain | Cmd::StartStatus) => {
             w.pool().is_some()
         }
         (TState::Idle, Cmd::StartReturn(o) | Cmd::StartTake(o)) => w.held(t).contains(o),
-        (TState::AtPoint(site), Cmd::Go(_)) => !(w.lock_held() && lock_sites.contains(site)),
+        // (a task that was sent ahead has its Go already: it went through as soon as the mutex was free)
+        (TState::AtPoint(site), Cmd::Go(_)) => w.early[t] || !(w.lock_held() && lock_sites.contains(site)),
         (TState::AtCall { .. }, Cmd::Outcome(_)) => true,
         (TState::Pending { gate: Some(_) }, Cmd::Resume(_)) => true,
         (TState::Pending { gate: None }, Cmd::Poll) => true,
@@ -266,6 +270,7 @@ pub fn run_path(cfg: &Cfg, path: &PathRec, rec: &mut Recorder) -> PathResult {
     let mut w = World::new(cfg.clone());
     let mut res = PathResult { id: path.id, conform: true, ..Default::default() };
     rec.begin(path.id, &w);
+    let mut skip_compare = false;
     for (i, st) in path.steps.iter().enumerate() {
         res.steps = i + 1;
         if st.a == "DropPool" {
@@ -292,8 +297,29 @@ pub fn run_path(cfg: &Cfg, path: &PathRec, rec: &mut Recorder) -> PathResult {
                 res.skipped += 1;
                 continue;
             }
+            // The holder of the slots mutex is about to let go of it and the next step belongs to a task parked
+            // in front of a critical section: that task is sent ahead, so that it really WAITS for the mutex
+            // (same interleaving for code that blocks there; code that does not block runs too early).
+            let mut ahead: Option<usize> = None;
+            if res.conform && i + 1 < path.steps.len() && w.lock_held() && st.post.as_ref().map(|p| !p.lock).unwrap_or(false) {
+                let nx = &path.steps[i + 1];
+                if nx.t != st.t {
+                    if let (Some(t2), Some(Cmd::Go(None))) = (w.task_ix(&nx.t), command_of(nx)) {
+                        if let TState::AtPoint(site) = w.ts[t2] {
+                            if LOCK_SITES.contains(&site) {
+                                w.preissue(t2);
+                                ahead = Some(t2);
+                            }
+                        }
+                    }
+                }
+            }
             let before = w.ts[t].clone();
             w.send(t, cmd);
+            if let Some(t2) = ahead {
+                w.await_early(t2);
+                skip_compare = true;
+            }
             rec.step(&w, Some(t), st, Some(&before));
             if w.hung {
                 res.hung = true;
@@ -306,7 +332,7 @@ pub fn run_path(cfg: &Cfg, path: &PathRec, rec: &mut Recorder) -> PathResult {
                 break;
             }
         }
-        if res.conform {
+        if res.conform && !std::mem::take(&mut skip_compare) {
             if let Some(p) = &st.post {
                 let acting = w.task_ix(&st.t);
                 let d = compare(&w, p, acting);
